@@ -142,9 +142,9 @@ PROPS["C19"] = dict(
 )
 PROPS["C17"] = dict(
     title="the SDK v1 and SDK v2 clients are behaviourally equivalent",
-    quick=[G("M_MODE"), G("M_LIFE", cfg="M_LIFE_b"), G("M_IDX"), G("M_BATCH", cfg="M_BGET"), G("M_NATIVE", cfg="M_NATIVE_pre"), G("M_KC"), H(30)],
+    quick=[G("M_MODE"), G("M_LIFE", cfg="M_LIFE_b"), G("M_IDX"), G("M_BATCH", cfg="M_BGET"), G("M_NATIVE", cfg="M_NATIVE_pre"), G("M_KC"), T("M_DOTQ"), H(30)],
     thorough=[G("M_MODE", cfg="M_MODE_t"), G("M_LIFE", cfg="M_LIFE_t"), G("M_IDX", cfg="M_IDX_t"), G("M_BATCH", cfg="M_BGET"),
-              G("M_C01a"), G("M_COND"), G("M_FAIL"), G("M_READ"), G("M_READ", cfg="M_WALK"), G("M_KC"), H(400, 60)],
+              G("M_C01a"), G("M_COND"), G("M_FAIL"), G("M_READ"), G("M_READ", cfg="M_WALK"), G("M_KC"), T("M_DOTQ"), H(400, 60)],
     own=[SDK],
     design_ref="DESIGN.md 6 C17",
     level_text="The same operation sequences - every transition of the lifecycle, failure-mode, index and batch models (thorough: of all "
